@@ -18,6 +18,11 @@ NEEDED: `witness_link_beyond_container`, `witness_codespan_across_runs`, `witnes
 siblings, and a slice panic. The character-escape and autolink scanners are discharged (`TokScan.mk'`). Block-phase trees end every
 non-last run with its line ending; deriving the scanner hypotheses from that is the remaining step, so on parser output these
 clauses are additionally evaluated by `Spec.spansOK` and the totality oracle.
+
+CORRECTION (sixth wave, `Props/C02Scan.lean`): `ContsOK` as stated here is FALSE on parser output: for a paragraph holding one code span and for
+a two-paragraph block quote (kernel-checked witnesses there; the argument is general), so the theorems below apply to fewer trees than intended. They are
+kept; `rewrite_spans2` / `rewrite_noPanic2` re-prove the same conclusions under the repaired hypotheses `ContsOK2`, which ARE derived
+for the containers of block-phase trees.
 -/
 namespace CM.Props.C02
 open CM CM.Model CM.Model.Inl CM.Spec CM.Proofs CM.Proofs.InlH
